@@ -66,6 +66,8 @@ impl StoryState {
 
         let mut rng = rand::rng();
         let story_seed = rng.random_range(0..100);
+        #[cfg(bladeink_verif)]
+        let story_seed = crate::verif::forced_seed().unwrap_or(story_seed);
 
         let state = StoryState {
             current_flow,
